@@ -1,4 +1,4 @@
-\* Pods removed by somebody else; unresponsive kubelet
+\* user sets a kill timestamp two ticks ahead and may move or remove it before it passes
 SPECIFICATION Spec
 CONSTANTS
  N = 1
@@ -10,16 +10,16 @@ CONSTANTS
  TTL = 2
  Forbid = FALSE
  Foreign = FALSE
- MaxTime = 3
+ MaxTime = 5
  MaxEvq = 2
  MaxFaults = 0
  MaxCrash = 0
  Fresh = TRUE
- KillDelays = {}
- KillEdits = {}
+ KillDelays = {2}
+ KillEdits = {99, 1}
  UserDeletes = FALSE
- ExtDeletes = TRUE
- NodeDowns = TRUE
+ ExtDeletes = FALSE
+ NodeDowns = FALSE
  Rejects = FALSE
 INVARIANTS TypeOK C08_OneLive C09_NotLost C09_NoForeignAdopt C10_SuccOnly C10_FailOnly G_Kill G_Reaches G_Listed G_Deleted G_Foreign
 PROPERTIES C08_Order C08_Delay C08_Gates C09_Keep C10_NoLiveAtFinish C11_Monotone C12_DeleteJustified C12_ForceGate C12_KillSticky C13_Order C13_TTLNotEarly
